@@ -61,24 +61,86 @@ def run_variant(prop: str, v: Dict[str, Any], repo_root: str = "/repo") -> Dict[
         shutil.rmtree(tmp, ignore_errors=True)
 
 
+def patch_variants(prop: str) -> List[Dict[str, Any]]:
+    """Kept patches as variants: a seeded change (and its re-creation on refactored code) recorded as caught by this
+    property must be reported; a behaviour-preserving refactoring must leave the check silent."""
+    out: List[Dict[str, Any]] = []
+    for d in sorted((VERIF / "seeded").glob("*/meta.json")):
+        meta = json.loads(d.read_text())
+        if prop in meta.get("caught_by", []):
+            out.append({"name": f"seed:{d.parent.name}", "patch": d.parent / "patch.diff", "expect_rc": 1})
+    for p in sorted((VERIF / "combos").glob("*.diff")):
+        seed = p.stem.split("__")[0]
+        mp = VERIF / "seeded" / seed / "meta.json"
+        if mp.exists() and prop in json.loads(mp.read_text()).get("caught_by", [])[:1]:
+            out.append({"name": f"combo:{p.stem}", "patch": p, "expect_rc": 1})
+    # refactorings of files this property's check reads
+    files = set()
+    for line in (VERIF / "properties.jsonl").read_text().splitlines():
+        if line.strip():
+            d = json.loads(line)
+            if d["id"] == prop:
+                files = set(d.get("anchors", {}).get("files", []))
+    if prop in ("C01", "C02", "C03", "C04", "C08", "C09", "C10", "C13", "C14"):
+        files |= {"src/celpy/evaluation.py", "src/celpy/celtypes.py"}
+    import re as _re
+
+    for p in sorted((VERIF / "refactors").glob("*/r*.diff")):
+        touched = set(_re.findall(r"^\+\+\+ b/(\S+)", p.read_text(), _re.M))
+        if files and not (touched & files):
+            continue
+        out.append({"name": f"refactor:{p.parent.name}/{p.stem}", "patch": p, "expect_rc": 0})
+    return out
+
+
+def run_patch_variant(prop: str, v: Dict[str, Any], repo_root: str = "/repo") -> Dict[str, Any]:
+    tmp = Path(tempfile.mkdtemp(prefix="celverif_"))
+    try:
+        shutil.copytree(Path(repo_root) / "src", tmp / "src")
+        a = subprocess.run(["git", "apply", "--include=src/*", str(v["patch"])], cwd=str(tmp), capture_output=True, text=True)
+        if a.returncode != 0:
+            return {"name": v["name"], "status": "skipped", "why": "patch does not apply to the current tree"}
+        p = subprocess.run(
+            [sys.executable, "-m", "sa.run", prop, "--root", str(tmp), "--no-evidence", "--tier", "quick"],
+            cwd=str(VERIF), capture_output=True, text=True, timeout=300,
+            env={**os.environ, "PYTHONDONTWRITEBYTECODE": "1"},
+        )
+        want = v["expect_rc"]
+        if p.returncode == want:
+            status = "ok"
+        elif p.returncode == 2:
+            status = "analysis-error"
+        else:
+            status = "missed" if want == 1 else "false-alarm"
+        return {"name": v["name"], "status": status, "rc": p.returncode, "tail": p.stdout.strip().splitlines()[-1:] if status != "ok" else []}
+    finally:
+        shutil.rmtree(tmp, ignore_errors=True)
+
+
 def run_selftest(prop: str, run: Any = None, jobs: int = 12) -> Dict[str, Any]:
     vs = load_variants(prop)
+    pv = patch_variants(prop)
     with ThreadPoolExecutor(max_workers=jobs) as ex:
         results = list(ex.map(lambda v: run_variant(prop, v), vs))
+        presults = list(ex.map(lambda v: run_patch_variant(prop, v), pv))
+    results = results + presults
     summary = {
-        "variants": len(vs),
+        "variants": len(vs) + len(pv),
+        "seeded_changes_reported": sum(1 for r in presults if r["status"] == "ok" and r["name"].startswith(("seed:", "combo:"))),
+        "refactorings_silent": sum(1 for r in presults if r["status"] == "ok" and r["name"].startswith("refactor:")),
         "ok": sum(r["status"] == "ok" for r in results),
         "skipped": [r["name"] for r in results if r["status"] == "skipped"],
         "failed": [r for r in results if r["status"] not in ("ok", "skipped")],
-        "positive": sum(1 for v in vs if v.get("expect") is not None),
-        "negative": sum(1 for v in vs if v.get("expect") is None),
+        "positive": sum(1 for v in vs if v.get("expect") is not None) + sum(1 for v in pv if v["expect_rc"] == 1),
+        "negative": sum(1 for v in vs if v.get("expect") is None) + sum(1 for v in pv if v["expect_rc"] == 0),
     }
     if run is not None:
         run.selftest = summary
-        if summary["failed"]:
-            from ..core.model import AnalysisError
-
-            raise AnalysisError(f"checker self-test failed for {prop}: " + "; ".join(f"{r['name']}={r['status']}" for r in summary["failed"]))
+        # The self-test is evidence about the checker, not about /repo: it never changes the verdict or the exit
+        # status (a tree that violates the property makes every variant inherit the violation; a refactored tree
+        # may move a variant's anchor).  Failures are printed and recorded.
+        for r in summary["failed"]:
+            print(f"SELFTEST property={prop} variant={r['name']} status={r['status']}")
     return summary
 
 
